@@ -235,7 +235,9 @@ def sweep_cases(thorough=False):
         for b in bounds:
             if b >= 65536 and not thorough and m not in ('BR', 'LDAP'):
                 continue
-            for dlt in range(-3, 4):
+            if b >= 1048576 and m != 'BR':
+                continue                      # a megabyte of fillers per case: one mnemonic is enough
+            for dlt in (range(-3, 4) if b < 1048576 else (-1, 0, 1)):
                 d = b + dlt
                 # forward: operand = d
                 cases.append({'id': 'fwd:%s:%d' % (m, d), 'prog': [ref(m, 'L')] + filler(d) + [lab('L'), imm('LDAC', 0)]})
